@@ -262,7 +262,11 @@ package mhprimary
 // visited is unlinked in that visit (C11).
 //@ func (gc *primaryGC) gc(ctx context.Context, lowUsePercent int64, timeLimit time.Duration) (reclaimed int64, err error)  property C03 C04 C11
 //@   requires gc.primary != nil && gc.visited != nil && gc.freeList != nil && inv(gc.primary)
-//@   modifies fp(MHGC), mapof(gc.visited), ctx.$done
+//@   requires @record-size-limit forall i int :: 0 <= i && i < len(gc.primary.nextPool.blocks) ==> len(gc.primary.nextPool.blocks[i].key) + len(gc.primary.nextPool.blocks[i].value) < (1 << 31)
+// D8 (finding F6, fixed): the records the freelist names are in the primary files before the
+// freelist is applied - the primary is flushed first.
+//@   assert at before call mhprimary.processFreeList#0: @D8-freed-locations-on-disk !PS(gc.primary).$pending
+//@   modifies fp(MHGC), heap("multihash.MultihashPrimary."), heap("bufio."), mapof(gc.visited), ctx.$done, PS(gc.primary).$pending
 //@   ghost var ghdr int = 0
 //@   ghost var gdead bool = false
 //@   ghost var gwasfirst bool = false
@@ -280,7 +284,7 @@ package mhprimary
 //@   assert at before call os.Remove#0: @C04-only-dead gdead
 //@   assert at before call mhprimary.writeHeader#0: @C11-advance-by-one $a1.FirstFile == wrapu32(fileNum + 1) && gwasfirst && gdead
 //@   assert at before call (context.Context).Err#0: @C11-oldest-dead-file-unlinked gdead && gwasfirst ==> grem
-//@   unreachable return#7: dead code - err is nil at this point (it was checked after reapRecords / writeHeader / os.Remove), so the DeadlineExceeded comparison never succeeds and a timed-out cycle returns through the generic ctx.Err() path
+//@   unreachable return#8: dead code - err is nil at this point (it was checked after reapRecords / writeHeader / os.Remove), so the DeadlineExceeded comparison never succeeds and a timed-out cycle returns through the generic ctx.Err() path
 //@   loop 0 invariant gc.visited != nil
 //@   loop 1 invariant ghdr == header.FirstFile && gc.primary == old(gc.primary) && gc.primary.basePath == old(gc.primary.basePath) && gc.primary.headerPath == old(gc.primary.headerPath) && gc.visited != nil && lastFileNum == gc.primary.fileNum && gc.freeList != nil && inv(gc.primary)
 
